@@ -30,7 +30,7 @@ def mk_series(spec, unit):
 
 SERIES = {"base": (0, [1, 5, 2, 0, 3], ()), "shifted": (2, [4, 1, 1, 2, 6], ()), "disjoint": (9, [2, 2, 7], ()),
           "gap_a": (0, [1, 5, 2, 8, 3], (1,)), "gap_b": (0, [3, 1, 4, 1, 5], (3,)), "negative": (0, [-1, 2.5, -3, 0, 1], ()),
-          "fraction": (1, [0.4, 1.2, 2.6], ())}
+          "fraction": (1, [0.4, 1.2, 2.6], ()), "all_negative": (1, [-1.5, -2, -0.5], ())}
 UNITS = {"kg": u.kg, "g": u.g, "hour": u.hour, "dimensionless": u.dimensionless, "percent": u.percent, "GB": u.GB, "MB": u.MB}
 
 
@@ -242,7 +242,7 @@ def run(tier, seed, procs=16):
     recv = [n for n in names if n.startswith(("q(", "h(", "empty"))]
     if tier == "quick":
         recv = [n for n in recv if "kg" in n or "dimensionless" in n or "percent" in n or n == "empty" or "GB" in n or "~" in n]
-        recv = [n for i, n in enumerate(recv) if not n.startswith("h(") or any(s in n for s in ("base", "gap_a", "negative")) or "~" in n]
+        recv = [n for i, n in enumerate(recv) if not n.startswith("h(") or any(s in n for s in ("base", "gap_a", "negative", "all_negative")) or "~" in n]
         others = [n for n in names if not n.startswith("h(") or any(s in n for s in ("base,", "shifted", "gap_b", "disjoint"))]
         others = [n for n in others if not n.startswith("q(") or n.startswith("q(1.5") or n.startswith("q(0 kg") or "~" in n]
     else:
